@@ -45,7 +45,7 @@ var ffNames = []string{"f1", "f2", "f3", "fid", "fodd", "ferr", "fprobe"}
 
 // docProbe, when set, is called by the model function fprobe: it looks at the document DURING a retrieval
 var docProbe func()
-var afNames = []string{"g1", "g2", "gcnt", "gerr"}
+var afNames = []string{"g1", "g2", "gcnt", "gerr", "gid"}
 
 // curVariant selects one of two behaviourally different implementations of the model's wrapper functions:
 // variant 1 tags the function name inside every wrapper array with a trailing marker character.  Cases alternate between the variants, so a parsed
@@ -90,6 +90,8 @@ func modelConfig(log *callLog, accessor bool) jsonpath.Config {
 					return nil, fmt.Errorf("boom-%s", name)
 				case "gcnt":
 					return float64(len(vs)), nil
+				case "gid":
+					return vs, nil // the very list the library handed over: it must stay what it is after the call returns
 				}
 				return mark(append([]interface{}{name}, cp...)), nil
 			})
